@@ -21,6 +21,7 @@ CPU, CT, FN, LY = "synapgrad/cpu_ops.py", "synapgrad/conv_tools.py", "synapgrad/
 M = {
  "R932bf4a": ("revert fix 932bf4a: padding='same' = dilation*(kernel-1)/2 per axis", "revert", ("revert", "932bf4a")),
  "Rddc01da": ("revert fix ddc01da: int kernel_size in im2col_fast / F.unfold", "revert", ("revert", "ddc01da")),
+ "Rfix1": ("without the pending fix1 (fold / col2im validate the shape of their argument): plain /repo HEAD", "revert", ("nopatch",)),
  "R7a21149": ("revert fix 7a21149: leaky_relu forward for any slope", "revert", ("revert", "7a21149")),
  "m03": ("conv1d_backward: moveaxis(a_grad_windows, 0, 1) -> destination 2", "mutation",
          [(CPU, "    a_grad_windows = np.moveaxis(a_grad_windows, source=0, destination=1)", "    a_grad_windows = np.moveaxis(a_grad_windows, source=0, destination=2)", 1)]),
@@ -107,10 +108,16 @@ def make_tree(mid):
     rc, out = sh("git -C /repo worktree add --detach %s HEAD" % t)
     assert rc == 0, out
     desc, kind, spec = M[mid]
+    pre = os.environ.get("MUT_PREPATCH")       # a pending fix (diff against /repo HEAD) every experiment tree starts from
+    if isinstance(spec, tuple) and spec[0] == "nopatch":
+        return t
     if isinstance(spec, tuple) and spec[0] == "revert":
         rc, out = sh("git revert --no-commit %s" % spec[1], cwd=t)
         assert rc == 0, out
-    else:
+    if pre:
+        rc, out = sh("git apply %s" % pre, cwd=t)
+        assert rc == 0, out
+    if not isinstance(spec, tuple):
         for (f, old, new, count) in spec:
             p = os.path.join(t, f)
             s = open(p).read()
